@@ -465,20 +465,27 @@ def _B3_frame(rep, flow, f):
               any(isinstance(x, ast.Name) and x.id == "full_hilbert_space" for x in ast.walk(n.test))]
     if len(guards) == 1:
         g = guards[0]
-        names = sorted({x.id for x in ast.walk(g.test) if isinstance(x, ast.Name)} - {"full_hilbert_space"})
+        names = sorted({x.id for x in ast.walk(g.test) if isinstance(x, ast.Name)} - {"full_hilbert_space", "self", "len"})
         if len(names) == 1:
             qn = names[0]
             table = {}
+            # the fitter object as far as a guard may look at it: a record of a 3-qubit register
+            rcls = flow.prog.modules[TOMO].classes.get("ReadoutInfo") if TOMO in flow.prog.modules else None
             try:
-                for qv, ql in ((None, "all measured"), ((0, 2), "subset")):
+                for qv, ql in ((None, "all measured"), ((0, 2), "subset"), ((2, 0, 1), "all measured in another order")):
                     for fh in (True, False):
-                        table[(ql, fh)] = bool(ce.truth(ce.ev(g.test, {qn: qv, "full_hilbert_space": fh}, f)))
-            except (consteval.CERaise, AnalysisError):
-                table = None
-            want = {("all measured", True): True, ("all measured", False): True, ("subset", True): False, ("subset", False): True}
-            if table is None:
-                pass
-            elif table == want:
+                        env = {qn: qv, "full_hilbert_space": fh}
+                        if rcls is not None and f.cls is not None:
+                            me, ri = consteval.Instance(f.cls), consteval.Instance(rcls)
+                            ri.attrs.update({"qubits": qv, "total_num_qubits": 3, "circuit": consteval.Recorder(3 if qv is None else len(qv))})
+                            me.attrs.update({"readout_info": ri})
+                            env["self"] = me
+                        table[(ql, fh)] = bool(ce.truth(ce.ev(g.test, env, f)))
+            except (consteval.CERaise, AnalysisError) as ex:
+                raise AnalysisError(f"{pyfacts.where(f, g)}: the early return `if {ast.unparse(g.test)}` cannot be evaluated on the probe requests ({str(ex)[:80]}): when the embedding is skipped is not decidable")
+            want = {("all measured", True): True, ("all measured", False): True, ("subset", True): False, ("subset", False): True,
+                    ("all measured in another order", True): False, ("all measured in another order", False): True}
+            if table == want:
                 rep.ok("B3", 1, nontrivial="guard", sample=f"`if {ast.unparse(g.test)}: return` skips the embedding exactly when nothing is to embed")
             else:
                 bad = [k for k in want if table[k] != want[k]]
@@ -943,7 +950,63 @@ def _is_odd_test(test, mask, outcome_attr):
     return None
 
 
+def _S2_evaluate(rep, flow, why):
+    """an estimator whose parity test is written in a form the recognised idioms do not cover: evaluated on its whole domain
+    of (mask, outcome) pairs for registers of up to 6 bits with single-outcome results (the value must be +1 for even and
+    -1 for odd overlap), and on mixed results with unequal counts (the value must be the count-weighted mean)"""
+    f = flow.prog.func(A_ESTIMATOR)
+    m = f.module
+    rc, bc = m.classes.get("CircuitResult"), m.classes.get("BinaryResult")
+    if rc is None or bc is None:
+        return False
+    ce = consteval.CE(flow.prog, max_steps=200_000_000)
+
+    def result_of(pairs):
+        cr = consteval.Instance(rc)
+        rs = []
+        for o, c in pairs:
+            b = consteval.Instance(bc)
+            b.attrs.update({"bitstring": o, "count": c})
+            rs.append(b)
+        cr.attrs.update({"results": rs, "num_qubits": 6})
+        return cr
+
+    def sign(mask, o):
+        return -1 if bin(mask & o).count("1") & 1 else 1
+    n_ok = 0
+    try:
+        for mask in range(64):
+            for o in range(64):
+                got = ce.call_func(f, [result_of([(o, 1)]), mask], {})
+                if not isinstance(got, (int, float)) or abs(got - sign(mask, o)) > 1e-12:
+                    rep.finding("S2", f"{A_ESTIMATOR}:evaluated", f"{f.module.rel} {f.qualname}: for the mask {mask:06b} and the single outcome {o:06b} (overlap {bin(mask & o).count('1')} bit(s)) the estimate is {got!r}, required {sign(mask, o)} (+1 for an even, -1 for an odd number of outcome bits under the mask)")
+                    return True
+                n_ok += 1
+        for mask, o1, o2 in ((0b000011, 0b000001, 0b000011), (0b110000, 0b010000, 0b100001), (0b101010, 0b111111, 0b000000), (0b011110, 0b000010, 0b010000)):
+            got = ce.call_func(f, [result_of([(o1, 3), (o2, 5)]), mask], {})
+            want = (3 * sign(mask, o1) + 5 * sign(mask, o2)) / 8
+            if not isinstance(got, (int, float)) or abs(got - want) > 1e-12:
+                rep.finding("S2", f"{A_ESTIMATOR}:evaluated-mixed", f"{f.module.rel} {f.qualname}: for the mask {mask:06b} and counts {{{o1:06b}: 3, {o2:06b}: 5}} the estimate is {got!r}, required the count-weighted mean {want}")
+                return True
+            n_ok += 1
+    except consteval.CERaise as ex:
+        rep.finding("S2", f"{A_ESTIMATOR}:raise", f"{ex.where or f.module.rel}: the estimator raises {ex.etype} ({ex.msg[:60]}) on a probe result")
+        return True
+    except AnalysisError:
+        return False
+    rep.ok("S2", 3, nontrivial="evaluated", sample=f"estimator outside the recognised idioms ({why[:80]}); evaluated on all {64 * 64} (mask, outcome) pairs of 6-bit registers and on mixed results: +1 / -1 by parity, count-weighted mean")
+    return True
+
+
 def S2_estimator(rep, flow: Flow):
+    try:
+        _S2_structural(rep, flow)
+    except AnalysisError as ex:
+        if not _S2_evaluate(rep, flow, str(ex)):
+            raise
+
+
+def _S2_structural(rep, flow: Flow):
     rep.rule("S2", "estimator: every loop path adds the count to the total exactly once and adds it to (even parity of popcount(mask & outcome)) or subtracts it from (odd) the estimate exactly once; the result is estimate / total", floor=3)
     from .paths import enumerate_paths
     f = flow.prog.func(A_ESTIMATOR)
@@ -1107,7 +1170,7 @@ def W1_W2_builders(rep, flow: Flow, want=("W1", "W2"), builders=None):
                     if unk and any("measure_active" in str(u[1]) for u in unk):
                         rep.finding(rid0, f"{fq}:measurement", f"{f.module.rel} {f.qualname} return path #{pi}: the circuit is measured with measure_active(), which gives a classical bit only to qubits some gate acts on: a qubit that preparation and readout leave idle is not measured, the count keys get shorter and the bits above it move down - the fitter reads key position j as register qubit j ({unk[0][1][:100]})")
                         continue
-                    elif unk:
+                    elif unk and not (last[0] == "measure" and n_meas == 1):
                         raise AnalysisError(f"{f.module.rel} {f.qualname} return path #{pi}: the returned circuit is changed by an operation the interpreter does not model ({unk[0][1][:120]}): whether it ends in one measurement of the whole register cannot be decided")
                     elif not (last[0] == "measure" and n_meas == 1):
                         rep.finding(rid0, f"{fq}:measurement", f"{f.module.rel} {f.qualname} return path #{pi}: the returned circuit " + ("is not measured at all" if n_meas == 0 else "does not end in exactly one final measurement") + " (circuit term: preparation, readout, then measure_all is required)")
